@@ -238,7 +238,7 @@ func (s *syncCase) diffSides() (class, what string, err error) {
 				if !ok {
 					return kind + "-point-missing-upstream", fmt.Sprintf("%s: %s point %v exists downstream only", k, kind, id)
 				}
-				if pa.Time.UnixNano() != pb.Time.UnixNano() || pa.Value != pb.Value || pa.Text != pb.Text || pa.Tombstone != pb.Tombstone {
+				if pa.Time.UnixNano() != pb.Time.UnixNano() || pa.Value != pb.Value || pa.Text != pb.Text || pa.Tombstone != pb.Tombstone || string(pa.Data) != string(pb.Data) {
 					cls := kind + "-point-differs"
 					if id[0] == data.PointTypeTombstone {
 						cls = "deletion-state-differs"
@@ -269,7 +269,7 @@ func runC02(tier string, _ []string) int {
 	c := vlib.NewCtx("C02", tier, "exploration")
 	vlib.SetPortBlock(2)
 	c.SetRule("per scenario a downstream instance (real Sync client, period 1 s) linked to a bare upstream instance; a PRNG history of 6-25 acknowledged steps over {node-point write, edge-point write, create node, delete, undelete} x {downstream, upstream} x nodes inside the device subtree (nested groups), interleaved with link loss (sync node disabled), recovery, upstream restarts on the same file (also in two steps: the bus first, the store later, so that the downstream's reconnect and first catch-up attempt find a bus nobody answers on) restarts of the downstream instance itself, and writes placed *inside* a catch-up pass (performed from the sync.afterLocalFetch / afterRemoteFetch / beforeChildren hook sites in the sync client's own goroutine, aimed at the node the pass is comparing), always followed by a fixed list of corner scenarios (both sides write one identity during an outage; create upstream / downstream during an outage; delete downstream / upstream during an outage; delete + undelete; nested create under a node created during the outage). After the last write the link is up; catch-up passes are counted passively (nodes.all.<device> requests on the downstream bus) and after each pass both device subtrees are walked (deleted included) and compared: placements, newest point per identity of every node and edge. Convergence is demanded within 10 passes and must then hold on two consecutive walks; the agreed value of every identity the harness wrote must be at least as new as the newest acknowledged write on either side, and anything newer must have been seen on a bus. distinct = (set of operation kinds performed during outages, passes needed)")
-	c.Assume("the device's own top edge upstream is not compared (deliberately not synchronised); origins and data are not compared (whole-node transfer stamps the sync node as origin); equal timestamps on one identity are not generated")
+	c.Assume("the device's own top edge upstream is not compared (deliberately not synchronised); origins are not compared (whole-node transfer stamps the sync node as origin); binary data and tombstone counts are; equal timestamps on one identity are not generated")
 	nScen := c.N(16, 128)
 	wd := c.NewWatchdog()
 	corners := []string{"both-write-same-identity", "create-upstream", "create-downstream", "delete-downstream", "delete-upstream", "delete-undelete-downstream", "nested-create-downstream", "nested-create-upstream", "upstream-restart", "mid-pass", "upstream-restart-store-late", "edge-point-upstream", "downstream-restart", "glued-identities", "glued-identities", "random", "random"}
@@ -418,7 +418,14 @@ func runC02(tier string, _ []string) int {
 			if r.Chance(0.35) {
 				typ, key = []string{"v", "v1", "v10"}[r.Intn(3)], []string{"", "0", "10", "1"}[r.Intn(4)]
 			}
-			return s.write(side, false, n.ID, "", data.Point{Type: typ, Key: key, Time: s.now(), Value: float64(r.Intn(1000)), Text: "t" + r.Ident(3), Origin: "harness"})
+			p := data.Point{Type: typ, Key: key, Time: s.now(), Value: float64(r.Intn(1000)), Text: "t" + r.Ident(3), Origin: "harness"}
+			if r.Chance(0.25) {
+				p.Data = []byte("d" + r.Ident(1+r.Intn(6)))
+			}
+			if r.Chance(0.1) {
+				p.Tombstone = []int{1, 2, 3}[r.Intn(3)]
+			}
+			return s.write(side, false, n.ID, "", p)
 		}
 		edgeWrite := func(side string, n *syncNodeRec) error {
 			mark("edgewrite@" + side)
